@@ -326,6 +326,17 @@ func Collect[T any](ctx context.Context, s Stream[T]) ([]T, error) {
 func Last[T any](ctx context.Context, s Stream[T], n int) ([]T, error) {
 	defer s.Close()
 	buf := make([]T, n)
+	if n == 0 {
+		// Still consume s; i%n below would divide by zero.
+		for {
+			_, err := s.Next(ctx)
+			if err == End {
+				return buf, nil
+			} else if err != nil {
+				return nil, err
+			}
+		}
+	}
 	i := 0
 	for {
 		item, err := s.Next(ctx)
